@@ -96,7 +96,7 @@ def main_for(prop, level, rule, focus_list, tier, seed, loading=False, extra_gen
         i = 0
         while True:
             f = focus_list[i % len(focus_list)]
-            yield gen_case(seed, i, tier, focus=f, loading=loading)
+            yield gen_case(seed, i, tier, focus=f, loading=loading, tag=prop.lower())
             if extra_gens:
                 for g in extra_gens:
                     c = g(seed, i, tier)
